@@ -132,7 +132,7 @@ PROPS['C14'] = dict(
     module='GeodeVerif.Proofs.C14', namespace='GeodeVerif.C14',
     required_theorems=['vincinv_utm_def', 'line_sf_def', 'line_sf_formula', 'line_sf_symmetric', 'line_sf_ge_k0',
                        'line_sf_point', 'rho_nu_def', 'cross_zone', 'vincdir_utm_structure', 'whileLoopE_ok',
-                       'vincdir_utm_exit', 'arguments_threaded'],
+                       'vincdir_utm_exit', 'arguments_threaded', 'lsfCore_simpson', 'lsfCore_between_simpson', 'line_sf_simpson'],
     tie_functions=['Geodesy.line_sf', 'Geodesy.rho', 'Geodesy.nu', 'Geodesy.vincinv_utm', 'Geodesy.vincdir_utm', 'Survey.radiations'],
     tie_n={'quick': 1500, 'thorough': 40000},
     probe='C14.py',
@@ -140,8 +140,9 @@ PROPS['C14'] = dict(
          'ellipsoids), bitwise GenF vs real vincinv_utm/vincdir_utm/line_sf; non-trivial = returned a value. search: '
          'definition of the grid inverse, direct inverts inverse (1 mm), line scale factor vs point scale factors.',
     trusted_base=GEOD_TB + ['while-loop fuel 100 in the model of vincdir_utm (the source loop is uncapped)'],
-    assumptions=['1 mm closure and the 3e-7 / 5e-7 scale-factor comparisons are decided by search (numeric facts about '
-                 'Deakin\'s line-scale-factor formula and the iteration)'],
+    assumptions=['1 mm closure and the 3e-7 / 5e-7 scale-factor comparisons against the EXACT point scale factors are decided by search; '
+                 'that line_sf is Simpson\'s mean of the second-order point scale factors plus a term in [0, k0 M^4/(24 r^4)] is a theorem '
+                 '(line_sf_simpson)'],
 )
 
 PROPS['C16'] = dict(
